@@ -457,6 +457,10 @@ def run(rep: Report, tier: str) -> None:
     rw = rep.rule("C13.f", "rows shown are exactly the window's: the entry-set iterator applies both bounds on the entry's own calendar date", floor=2)
     c10.check_iterator_window(rep, rw, m, "tables would show transactions outside the window or hide ones inside it")
     _check_average_price(rep, fr)
+    from . import c10 as _c10
+
+    rj = rep.rule("C13.j", "'k/n' labels count the fractions of the window: the numbering tables are per copy (rebound, not cleared in place) and filled up to the copy's to-date", floor=4)
+    _c10.check_per_copy_state(rep, rj)
     # the Account Balances table shows the replayed balances: the replay's own obligations (flows per class, identity final = acquired + received - sent,
     # one line per account, time order up to the to-date) are C07's; they are restated here because the table's figures are only as right as the replay
     from . import c07
